@@ -17,7 +17,7 @@
    loaded first (nonrobust_probe_differs; open finding C20/epsilon-first-writer, DESIGN F15). *)
 From Coq Require Import ZArith List Bool String.
 From FrameModel Require Import Num.QcTac Geometry.Rect Stog.CreateStog
-  PB.Expr PB.Cnf PB.Amo PB.Robdd PB.Codify PB.Sat History.State History.StateFacts.
+  PB.Expr PB.Cnf PB.Amo PB.Robdd PB.Codify PB.Sat PB.SatSpan History.State History.StateFacts History.PatternFacts.
 Import ListNotations.
 Open Scope Qc_scope.
 
@@ -120,6 +120,17 @@ Theorem C20_memory_independent : forall (m1 m2 : memory) ps, mem_wf m1 -> mem_wf
 Proof. exact memory_independent. Qed.
 Print Assumptions C20_memory_independent.
 
+(* ... whatever its SIZE: the two stores of C20_memory_independent are arbitrary well-formed lists; for every n
+   there is one with n nodes (the store a history of thousands of encodings leaves behind), and the posts
+   started from it are accepted / refused and restrict the user's variables exactly as from the empty store *)
+Theorem C20_memory_any_size : forall n ps, Forall post_ok ps ->
+  exists m0 : memory, List.length m0 = n /\ mem_wf m0 /\
+    exists m s m' s' sts,
+      run_posts [] empty_mgr ps = Some (m, s, sts) /\ run_posts m0 empty_mgr ps = Some (m', s', sts) /\
+      forall a, ext a (clauses s) <-> ext a (clauses s').
+Proof. exact memory_any_size. Qed.
+Print Assumptions C20_memory_any_size.
+
 (* ---- histories ---- *)
 (* the first writer's tolerances are never replaced *)
 Theorem C20_first_writer_wins : forall (sqrt_o : Qc -> Qc) (li lo : Type) (b : li -> lo) (pr : li -> Qc * Qc * Qc)
@@ -184,6 +195,24 @@ Theorem C20_related_history_example :
     boxes_eqb (map box4 sp) [(qc 1 1, qc 3 1, qc 2 1, qc 2 1); (qc 3 1, qc 3 1, qc 2 1, qc 2 1)] = true.
 Proof. exact related_history_hypotheses_satisfiable. Qed.
 Print Assumptions C20_related_history_example.
+
+(* a history of designs with the probe's PATTERN and other coordinates: two dies whose 3 x 3 matrices of cells
+   are both "centre occupied" (6 x 6, lines 0 2 4 6; 12 x 5, lines 0 9 11 12 / 0 1 4 5); the hypotheses of
+   C20_history_independent hold, the two designs decompose differently, and the probe's answer after the
+   history is its fresh answer (first ground region: its own wide first column 9 x 5) *)
+Theorem C20_same_pattern_example :
+  Forall (cand_ok (fun x => x) unit ex_band_lo ex_band_hi) pat_hist /\
+  Forall (posts_ok unit) pat_hist /\
+  cand_ok (fun x => x) unit ex_band_lo ex_band_hi pat_b /\
+  probe_robust (fun x => x) unit ex_band_lo ex_band_hi pat_b /\
+  snd (ex_step s_init pat_a) <> snd (ex_step s_init pat_b) /\
+  snd (ex_step (ex_run pat_hist s_init) pat_b) = snd (ex_step s_init pat_b) /\
+  exists g sp bl fx,
+    snd (ex_step (ex_run pat_hist s_init) pat_b) = RDie unit (DM.Accept g sp bl fx) /\
+    List.length g = 4%nat /\
+    boxes_eqb (map box4 (firstn 1 g)) [(qc 9 2, qc 5 2, qc 9 1, qc 5 1)] = true.
+Proof. exact same_pattern_other_coordinates. Qed.
+Print Assumptions C20_same_pattern_example.
 
 (* ---- objects bound to default arguments: no operation writes them ---- *)
 Theorem C20_defaults_never_written : forall (sqrt_o : Qc -> Qc) (li lo : Type) (b : li -> lo) (pr : li -> Qc * Qc * Qc)
